@@ -55,8 +55,9 @@ def run_unit(unit_dir: str, repo_root: str = '/repo', tier: str = 'quick', keep:
         res['solver_time_s'] = round(time.time() - t1, 2)
         line = next((l[l.index('{"bound"'):] for l in r.stdout.split('\n') if '{"bound"' in l), None)
         if line is None:
-            if r.returncode != 0:
-                # a panic of the real code during the enumeration is itself a failure
+            if r.returncode == 101 or 'panicked at' in r.stderr:
+                # a panic of the real code during the enumeration is itself a failure (a driver killed by a signal — the
+                # OOM killer, a timeout — or exiting otherwise without a result is a tool error, not a verdict)
                 res['status'] = 'violation'
                 res['bounded'].append({'id': cfg['obligation'], 'bound': 'driver aborted', 'status': 'fail', 'clause': cfg.get('clause', '')})
                 res['failures'].append({'id': cfg['obligation'], 'message': 'the real code panicked during the enumeration', 'kind': 'native',
